@@ -240,9 +240,7 @@ def doOp (total : Bool) (st : St) (opType : String) (args : List Arg) (outs : Ou
     (graphs : List Nat) : St :=
   let (st1, ins) := resolveArgs st args
   let keys := outKeys st1.cur (nodeCount total st1) opType outs
-  let nname := match nodeName with
-    | some n => n
-    | none => autoNodeName st1.cur (nodeCount total st1) opType
+  let nname := nodeName.getD (autoNodeName st1.cur (nodeCount total st1) opType)
   let (st2, ids) := newValuesK st1 keys
   let st3 := addNode st2 ⟨nname, "", opType, ins, ids, graphs, ""⟩
   { st3 with handles := st3.handles ++ ids.map some }
@@ -267,12 +265,15 @@ def vmapGet (m : VMap) (n : String) : Option Nat :=
   | some e => e.2
   | none => none
 
+/-- an input of a body node through the value map (`Cloner`: a mapped value, else absent). -/
+def mapIn (m : VMap) : Option String → Option Nat
+  | some x => vmapGet m x
+  | none => none
+
 /-- clone one body node (`Cloner.clone_node` + `rename`): inputs through the value map, fresh outputs
     named `prefix + name`, node name `prefix + name`. -/
 def cloneNode (st : St) (m : VMap) (np : String) (n : FNode) : St × VMap × Node :=
-  let ins := n.ins.map (fun i => match i with
-    | some x => vmapGet m x
-    | none => none)
+  let ins := n.ins.map (mapIn m)
   let (st1, ids) := newValues st (n.outs.map (fun o => if o = "" then "" else np ++ o))
   let m1 := (n.outs.zip (ids.map some)) ++ m
   (st1, m1, ⟨if n.name = "" then "" else np ++ n.name, n.domain, n.op, ins, ids, [], ""⟩)
@@ -311,6 +312,17 @@ def isRef : Arg → Bool
   | .lit _ => false
   | _ => true
 
+/-- the clones `call_inline` makes of the body of `f` (formals ↦ actuals, names prefixed with the qualified
+    `"{f}_node_{count}/"`), with the state and the value map after cloning. -/
+def inlineClones (total : Bool) (st0 : St) (f : Fn) (actuals : List (Option Nat)) : St × VMap × List Node :=
+  cloneNodes st0 (f.formals.zip actuals) (autoNodeName st0.cur (nodeCount total st0) f.name ++ "/") f.nodes
+
+/-- `_outputs=` given with the wrong number of names. -/
+def outsMismatch (outs : Option (List String)) (f : Fn) : Bool :=
+  match outs with
+  | some o => o.length != f.outputs.length
+  | none => false
+
 def doInline (total : Bool) (fns : List Fn) (st : St) (fi : Nat) (args : List Arg) (outs : Option (List String))
     (pfx : String) : St :=
   match fns[fi]? with
@@ -318,15 +330,12 @@ def doInline (total : Bool) (fns : List Fn) (st : St) (fi : Nat) (args : List Ar
   | some f =>
     if !(args.all isRef) then fail st "inline-literal-arg"
     else if args.length > f.formals.length then fail st "too-many-inputs"
-    else if (match outs with | some o => o.length != f.outputs.length | none => false) then
+    else if outsMismatch outs f then
       fail st "outputs-mismatch"
     else
       let desired := outs.map (fun o => o.map (qualifyValue st.cur))
       let st0 := if pfx = "" then st else pushScope st pfx
-      let np := autoNodeName st0.cur (nodeCount total st0) f.name ++ "/"
-      let (_, actuals) := resolveArgs st0 args
-      let m0 : VMap := f.formals.zip actuals
-      let (st1, m1, nodes) := cloneNodes st0 m0 np f.nodes
+      let (st1, m1, nodes) := inlineClones total st0 f (resolveArgs st0 args).2
       let finalsO := f.outputs.map (vmapGet m1)
       let finals := finalsO.filterMap id
       let st2 := addInlined st1 finals nodes
